@@ -287,16 +287,44 @@ func olvmWorld(seed uint64, accts ...*olvmAcct) *World {
 	for _, a := range accts {
 		w.State.Balances = append(w.State.Balances, consensus.BalanceState{Address: a.addr, Currency: "OLT", Amount: oltUnits(1000)})
 	}
+	rebuildGenesis(w)
+	return w
+}
+
+// rebuildGenesis regenerates the genesis document after w.State was changed (as NewWorld does).
+func rebuildGenesis(w *World) {
 	gd, err := consensus.NewGenesisDoc(w.ChainID, w.State)
 	if err != nil {
 		panic(err)
 	}
 	gd.GenesisTime = w.GenesisTime
 	gd.Validators = w.Genesis.Validators
-	gd.ForkParams = &config.ForkParams{FrankensteinBlock: p.Frankenstein}
-	gd.ConsensusParams.Block.MaxGas = p.MaxGas
+	gd.ForkParams = &config.ForkParams{FrankensteinBlock: w.P.Frankenstein}
+	gd.ConsensusParams.Block.MaxGas = w.P.MaxGas
 	w.Genesis = gd
-	return w
+}
+
+// mixAccountAlgorithms replaces three of the funded user accounts by accounts holding a
+// SECP256K1 key and two BTCEC keys (one signing with the libraries directly as the scheme is
+// specified, one with the repo's own private-key handler), so that the generated originals — and
+// with them every mutant class — meet the key algorithms a client can sign a transaction with
+// (ETHSECP cannot: go-ethereum verifies 32-byte digests only, RawBytes() never is one).
+func mixAccountAlgorithms(w *World) {
+	for _, x := range []struct {
+		i    int
+		alg  keys.Algorithm
+		repo bool
+	}{{1, keys.SECP256K1, false}, {2, keys.BTCECSECP, false}, {3, keys.BTCECSECP, true}} {
+		if x.i >= len(w.Accts) {
+			continue
+		}
+		a := newSigKey(w.P.Seed, fmt.Sprintf("acct%d", x.i), x.alg).acct(fmt.Sprintf("acct%d-%s", x.i, algNames[x.alg]), x.repo)
+		w.Accts[x.i] = a
+		w.State.Balances = append(w.State.Balances,
+			consensus.BalanceState{Address: a.Addr, Currency: "OLT", Amount: oltUnits(w.P.AcctFunds)},
+			consensus.BalanceState{Address: a.Addr, Currency: "VT", Amount: *balance.NewAmountFromInt(1000)})
+	}
+	rebuildGenesis(w)
 }
 
 func runSigOlvm(opt SigmOptions, res *Result, add func(op, im string, nt bool)) error {
